@@ -76,6 +76,18 @@ for c in mutants.CONTROLS:
     bad = {p: v[1][:2] for p, v in res.items() if v[0] != 0}
     report(c['name'], not bad, str(bad) if bad else 'silent on %d checks' % len(claimed))
     restore()
+# patch-based behaviour-preserving controls
+for pf in sorted(glob.glob(os.path.join(VERIF, 'selftest', 'controls', '*.diff'))):
+    name = os.path.basename(pf)[:-5]
+    if not selected(name):
+        continue
+    r = sh(['git', 'apply', pf], cwd=REPO)
+    if r.returncode != 0:
+        report(name, False, 'control patch does not apply'); restore(); continue
+    res = run_checks(claimed)
+    bad = {p: v[1][:2] for p, v in res.items() if v[0] != 0}
+    report(name, not bad, str(bad) if bad else 'silent on %d checks' % len(claimed))
+    restore()
 # seeded changes
 for d in sorted(glob.glob(os.path.join(VERIF, 'seeded', '*'))):
     name = 'seeded/' + os.path.basename(d)
